@@ -40,8 +40,13 @@ def check_n(d: dict[str, Any]) -> list[str]:
     pos = i * (n + 1) + j
     got = get_triu(pos)
     want = torch.tensor([a * (n + 1) + b for a, b in order]).double()
-    if got.shape != want.shape or not torch.equal(got, want):
-        bad.append(f'n={n}: get_triu order differs from PackOrder')
+    if got.numel() != n * (n + 1) // 2:
+        bad.append(f'n={n}: packed length {got.numel()} != n(n+1)/2')
+    elif sorted(got.tolist()) != sorted(want.tolist()):
+        bad.append(f'n={n}: packed elements are not the upper triangle')
+    elif not torch.equal(got.reshape(-1), want):
+        bad.append(f'DRIFT n={n}: packing order differs from Triu.PackOrder '
+                   f'(allowed: only losslessness is the property)')
     sym = torch.minimum(i, j) * (n + 1) + torch.maximum(i, j)
     g = torch.Generator().manual_seed(n)
     for dt in DTYPES:
@@ -106,6 +111,20 @@ def comm_case(arg: tuple[int, str, int]) -> list[str]:
             comm.flush_allreduce_buckets()
             out[f'ab{sym}'] = f1.wait()
             out[f'ab2{sym}'] = f2.wait()
+        # a proper sub-group whose group-local ranks differ from the global
+        # ones: {1, 2}; the source is given as a GLOBAL rank
+        import torch.distributed as dist
+        sub = dist.new_group([1, 2])
+        if r in (1, 2):
+            for src in (1, 2):
+                for sym in (False, True):
+                    f = comm.broadcast((m * (src + 1)).clone(), src=src,
+                                       group=sub, symmetric=sym)
+                    out[f'sg{src}{sym}'] = f.wait() if not isinstance(
+                        f, torch.Tensor) else f
+                    f = comm.allreduce(m.clone(), group=sub, symmetric=sym)
+                    out[f'sa{src}{sym}'] = f.wait() if not isinstance(
+                        f, torch.Tensor) else f
         res[r] = out
 
     w = simdist.World(3, simdist.RandomPolicy(seed))
@@ -124,6 +143,13 @@ def comm_case(arg: tuple[int, str, int]) -> list[str]:
                     not torch.equal(d, s):
                 bad.append(f'n={n} {dtn} rank {r}: symmetric {k} differs from '
                            f'dense')
+    for r in (1, 2):
+        for k in ('sg1', 'sg2', 'sa1', 'sa2'):
+            d, s = res[r][f'{k}False'], res[r][f'{k}True']
+            if d.dtype != s.dtype or d.shape != s.shape or \
+                    not torch.equal(d, s):
+                bad.append(f'n={n} {dtn} rank {r}: symmetric {k} in a '
+                           f'sub-group differs from dense')
     numels = [e['numel'] for e in w.events
               if e['ev'] == 'issue' and e['rank'] == 0]
     if n * (n + 1) // 2 not in numels:
@@ -185,6 +211,9 @@ def main(tier: str, seed: int) -> int:
     res = pmap(check_n, ds)
     for d, lst in zip(ds, res):
         for b in lst:
+            if b.startswith('DRIFT'):
+                v.note('model-drift: ' + b)
+                continue
             v.violation(b, {'kind': 'pack', 'msg': b.split(':')[-1].strip()[:40]},
                         replay={'n': d['n']})
     cases = [(n, dt, seed + n) for n in ([1, 2, 3, 5, 8] if tier == 'quick'
